@@ -4,6 +4,9 @@
 #define HZ_MAIN
 #include "common.hpp"
 
+#include <cfenv>
+#include <utility>
+
 #include "libphysica/Linear_Algebra.hpp"
 
 using namespace libphysica;
@@ -44,6 +47,9 @@ static std::string run_if(bool conformable, const std::function<void(Out&)>& bod
 {
 	return conformable ? run(body) : run_forked(body);
 }
+// returning a by-value parameter: the return value is move-constructed from the parameter (no elision)
+static Matrix pass_through(Matrix m) { return m; }
+static Vector pass_through(Vector v) { return v; }
 static void need(bool ok)
 {
 	if(!ok)
@@ -644,6 +650,107 @@ std::string handle(const std::string& op, Args& a)
 				v += v;
 				put(o, v);
 			}
+		});
+	}
+	if(op == "c04.moves")	// objects constructed from rvalues: the new object must hold the value of its source
+	{
+		std::string k = a.tok();
+		Matrix A = rd_mat(a), B = rd_mat(a);
+		a.end();
+		need(k == "swap" || k == "move" || k == "push" || k == "ret" || k == "assign" || k == "blocks");
+		bool conf = A.Rows() > 0 && B.Rows() > 0 && (k != "blocks" || A.Rows() == B.Rows());
+		return run_if(conf, [&](Out& o) {
+			if(k == "swap")
+			{
+				std::swap(A, B);
+				put(o, A);
+				put(o, B);
+			}
+			else if(k == "move")
+			{
+				Matrix C(std::move(A));
+				put(o, C);
+			}
+			else if(k == "push")
+			{
+				std::vector<Matrix> v;
+				v.push_back(Matrix(A));
+				v.push_back(Matrix(B));
+				put(o, v[0]);
+				put(o, v[1]);
+			}
+			else if(k == "ret")
+				put(o, pass_through(A));
+			else if(k == "assign")
+			{
+				Matrix C;
+				C = std::move(A);
+				put(o, C);
+			}
+			else
+			{
+				std::vector<Matrix> row;
+				row.push_back(Matrix(A));
+				row.push_back(Matrix(B));
+				std::vector<std::vector<Matrix>> g;
+				g.push_back(std::move(row));
+				put(o, Matrix(g));
+			}
+		});
+	}
+	if(op == "c04.vmoves")
+	{
+		std::string k = a.tok();
+		Vector u = rd_vec(a), v = rd_vec(a);
+		a.end();
+		need(k == "swap" || k == "move" || k == "push" || k == "ret" || k == "assign");
+		return run([&](Out& o) {
+			if(k == "swap")
+			{
+				std::swap(u, v);
+				put(o, u);
+				put(o, v);
+			}
+			else if(k == "move")
+			{
+				Vector w(std::move(u));
+				put(o, w);
+			}
+			else if(k == "push")
+			{
+				std::vector<Vector> l;
+				l.push_back(Vector(u));
+				l.push_back(Vector(v));
+				put(o, l[0]);
+				put(o, l[1]);
+			}
+			else if(k == "ret")
+				put(o, pass_through(u));
+			else
+			{
+				Vector w;
+				w = std::move(u);
+				put(o, w);
+			}
+		});
+	}
+	if(op == "c04.fenv")	// the library leaves the caller's rounding mode as it found it (a statement about the mode only)
+	{
+		std::string k = a.tok();
+		Vector u	  = rd_vec(a);
+		a.end();
+		need(k == "norm" || k == "normalize" || k == "normalized");
+		return run_forked([&](Out& o) {
+			std::fesetround(FE_UPWARD);
+			if(k == "norm")
+				(void) u.Norm();
+			else if(k == "normalize")
+				u.Normalize();
+			else
+				(void) u.Normalized();
+			int mode = std::fegetround();
+			std::fesetround(FE_TONEAREST);
+			o << (int) (mode == FE_UPWARD);
 		});
 	}
 	throw BadOp();
